@@ -45,7 +45,7 @@ P.update({
    text="Exploration with an exhaustive sub-space per case: uci_notation of every legal move equals the model's text and round-trips; for ALL strings [a-h][1-8][a-h][1-8][qrbn]? a string accepted by the membership test must be a legal text that names itself; through the binary `position … moves S` + show: legal text -> model successor, else 'Invalid move' and no third position.",
    note="Shape space complete per position; positions sampled. Upper-case promotion letters / trailing characters not asserted.", ref="DESIGN.md §4 C12"),
  "C13": dict(tech="property-based testing of the UCI clock arithmetic through the real binary with boundary-biased generators",
-   text="Exploration: generated go wtime/btime/winc/binc (log-uniform + boundaries, both sides, four field orders) and go movetime: `info time N` must exist with N <= the mover's clock (resp. movetime); short budgets run to completion (bestmove within N + grace), long ones answer isready and stop.",
+   text="Exploration: generated go wtime/btime/winc/binc (log-uniform + boundaries, increments also within a few hundred ms of the mover's own clock, both sides, four field orders) and go movetime: `info time N` must exist with N <= the mover's clock (resp. movetime); short budgets run to completion (bestmove within N + grace), long ones answer isready and stop.",
    note="Only the allotted figure is decided exactly; wall-clock promptness sampled with grace 2 s (2-5 s inconclusive). Failures re-checked from a fresh process.", ref="DESIGN.md §4 C13"),
  "C14": dict(tech="model-based (state-machine) generation of UCI command sequences with generated command delays and stretched schedule points (hooks), history invariants on the transcript",
    text="Exploration of schedules: 3-16 GUI intents (incl. go depth+movetime whose timer outlives the search, ucinewgame and quit while searching) interpreted by a GUI state machine, delays 0-100 ms, nine named schedule points stretched by 0/20/100 ms, isready bursts during the first millisecond of a search; invariants: one bestmove per accepted go within its deadline and not before it (no answer to go infinite without stop, none to go movetime T well before T), isready always answered on its own line, refusals while searching, position+go after bestmove honoured, no stray bestmove, no panic, exit 0.",
